@@ -659,24 +659,32 @@ def do_decrypt(args, info):
 
 
 # ------------------------------------------------------------------ faults / log
+PLAN = None       # in-process fault plan: {"plan": [{"mode":.., "nth":.., "kind":..}]}
+COUNTS = {}       # invocation counters of the in-process plan (reset by the harness per operation)
+
+
 def _fault_for(mode, info):
-    """XMLSEC_STANDIN_FAULTS: json file {"plan":[{"mode":..,"nth":..,"kind":..}]}; a
-    counter file next to it numbers the invocations of each mode within one operation."""
+    """Fault plan: in-process (PLAN/COUNTS) or, for the executable, the json file named by
+    XMLSEC_STANDIN_FAULTS with a counter file next to it.  Entries: mode (verify/sign/encrypt/
+    decrypt/*), nth ("every", "later" = every invocation but the first, or a number), kind."""
     path = os.environ.get('XMLSEC_STANDIN_FAULTS')
-    if not path or not os.path.exists(path):
+    if PLAN is not None:
+        plan, counts = PLAN, COUNTS
+    elif path and os.path.exists(path):
+        with open(path) as f:
+            plan = json.load(f)
+        try:
+            with open(path + '.count') as f:
+                counts = json.load(f)
+        except Exception:
+            counts = {}
+    else:
         return None
-    with open(path) as f:
-        plan = json.load(f)
-    cpath = path + '.count'
-    try:
-        with open(cpath) as f:
-            counts = json.load(f)
-    except Exception:
-        counts = {}
     counts[mode] = counts.get(mode, 0) + 1
     counts['*'] = counts.get('*', 0) + 1
-    with open(cpath, 'w') as f:
-        json.dump(counts, f)
+    if PLAN is None:
+        with open(path + '.count', 'w') as f:
+            json.dump(counts, f)
     info['nth'] = counts[mode]
     for ent in plan.get('plan', []):
         if ent.get('mode') not in (None, '*', mode):
